@@ -18,8 +18,10 @@ T = {
  "C15-q15": ("C15", "an administrator-defined class with a non-system must attribute (dynamic schema, domain level <= 14), then a create omitting it or a modify purging it",
              "caught", "quick seed 1", "c15/missing-required-attribute/after-ill_formed",
              "missed at first (the administrator-defined classes of the workload only allowed their attribute); one of the two custom classes now requires it, and two new ill-formed request kinds take the class without the attribute / drop the attribute"),
- "C20-q20": ("C20", "an access profile granting present+removed on uuid and a modlist mixing the uuid writes with a change of another attribute that also changes the entry's unique attributes", None, None, None, None),
- "C31-q31": ("C31", "a badlist entry with a non-ASCII cased letter, submitted with that letter in upper case, strong enough to reach the badlist step, through a credential update session", None, None, None, None),
+ "C20-q20": ("C20", "an access profile granting present+removed on uuid and a modlist mixing the uuid writes with a change of another attribute that also changes the entry's unique attributes",
+             "caught", "quick seed 1", "c20/uuid-changed/set/afterrename",
+             "missed at first (the benign companion modification was a mail value, so the uniqueness plugin refused the renumbered entry for clashing with its old self); added shapes that rename the target in the same modify list and a purge+present replacement kind"),
+ "C31-q31": ("C31", "a badlist entry with a non-ASCII cased letter, submitted with that letter in upper case, strong enough to reach the badlist step, through a credential update session", "caught", "quick seed 1", "c31/session-primary-badlisted-password-stored", None),
  "C40-q40": ("C40", "an LDAP compare whose DN names an entry that exists but is invisible to the bound identity", None, None, None, None),
  "C03-n03": ("C03", "an entry with a sync external id is deleted or its external id is changed; only the externalid2uuid lookup index keeps the stale mapping",
              "caught", "quick seed 1", "c03/externalid-of-dead-entry-still-resolves, c03/externalid-of-no-entry-still-resolves",
